@@ -584,7 +584,7 @@ def _ref_max_block(a, b, start):
 def prop_lccb(c):
     a, b, start = c["a"], c["b"], c["start"]
     ta, tb = G.mk_tsl(a), G.mk_tsl(b)
-    if not ta.equal_tile_bounds(tb):
+    if c["fam"] != "bounds-differ" and not ta.equal_tile_bounds(tb):
         raise AssertionError("generator: tile bounds differ")
     res = _call("lccb", ta.largest_common_contiguous_block, tb, start)
     if not isinstance(res, list) or not res or not all(isinstance(s, Stride) for s in res):
@@ -619,6 +619,11 @@ def prop_lccb(c):
     for _, (_, bd) in static:
         n *= bd
     n_chk = min(n, 512)
+    if any(a["dims"][d][k + 1:] != b["dims"][d][k + 1:] and [x[1] for x in a["dims"][d][k + 1:]] != [x[1] for x in b["dims"][d][k + 1:]]
+           for (d, k), _ in static):
+        # below a shared position the two layouts tile the dimension differently: a digit there addresses different logical elements
+        # in the two layouts, so "the same elements" is not defined (only possible in the bounds-differ family); (a) and (b) still hold
+        n_chk = 0
     # dynamic entries are never part of the static block: their digits stay 0, so any concrete value will do
     za, zb = (dict(dims=[[[s or 0, bd or 1] for s, bd in dim] for dim in x["dims"]], offset=x["offset"]) for x in (a, b))
     for i in range(n_chk):
@@ -825,7 +830,7 @@ def st_build(draw, tier="quick"):
 
 @st.composite
 def st_lccb(draw, tier="quick"):
-    return draw(G.layout_pair(tier, base=draw(st.sampled_from([1, 1, 1, 2, 4]))))
+    return draw(G.layout_pair(tier, base=draw(st.sampled_from([1, 1, 1, 2, 4])), bounds_may_differ=True))
 
 
 @st.composite
